@@ -25,6 +25,7 @@ RULE = (
     "or >= 2 consistent extensions, or a bb_output among the startpoints, or n's cone strictly smaller "
     "than the circuit. Distinct by digest."
 )
+RULE += ' Added after seeded-change rounds 4-5: assumption values as bools and 0/1 ints; the DIMACS problem line must declare exactly the clauses written; parity-heavy circuits.'
 ASSUMPTIONS = [
     "reference semantics cgv.refsim",
     "the pysat stand-in executes the library's enumeration loop; the approxmc stand-in is an exact projected counter; neither is the oracle",
